@@ -826,6 +826,25 @@ fn quiescence_checks(
     drive(cfg, pools, sh, cur_pool);
     let s = sh.lock().unwrap();
     let hj = json!(hist.iter().map(Op::to_json).collect::<Vec<_>>());
+    // joins made from inside task bodies that only came back while driving to quiescence
+    for (j, target, txt, started_at, timeout) in s.inner_joins.clone() {
+        if target < tasks.len() && tasks[target].accepted && !tasks[target].cancelled && !stopped_once.iter().any(|x| *x) {
+            let want = match expected_result(tasks[target].prog) {
+                Ok(v) => format!("Ok({v:?})"),
+                Err(m) => format!("Err({m})"),
+            };
+            let finished_at = s.log.iter().filter(|e| e.1 == target).map(|e| e.0).max();
+            let legit_timeout = timeout < 1000 * MS && txt == "IoErr(TimedOut)" && finished_at.is_none_or(|f| f > started_at + timeout);
+            if txt != want && !legit_timeout {
+                viols.push(Viol { property: "C02", clause: "wait-returns-own-outcome".into(), class: "waiter-is-a-task".into(),
+                    detail: format!("after {hj} and driving every pool to quiescence: task T{j} joined task T{target} from inside the pool with a {}ms timeout (from {}ns) and got {txt}; T{target}'s own outcome is {want}, it finished at {:?}ns", timeout / MS, started_at.saturating_sub(T0), finished_at.map(|f| f.saturating_sub(T0))) });
+                return;
+            }
+            if timeout < 1000 * MS && txt == want {
+                witnesses.push("short_join_from_inside_a_task_got_the_result");
+            }
+        }
+    }
     let any_stopped = stopped_once.iter().any(|x| *x);
     // cancel requests made from inside bodies while driving to quiescence
     let body_cancelled: Vec<usize> = s.body_cancels.iter().filter(|c| !c.2).map(|c| c.0).collect();
